@@ -2,8 +2,8 @@
 
 FS = ('FS layer: RollingWriter::{write,persist,forward,num_bytes_remaining_in_block,current_file} are VERIFIED against the BlockWrite contract over ghost state and the ASSUMED contracts of the '
       'BufWriter<File> stand-in vshim::BufFile (R17: with_capacity/write_all/flush/sync_data/seek; content/flushed/synced ghost lengths) plus one named assumption A-stream-bound (fewer than 2^62 bytes through one writer); '
-      'RollingReader::{open,next_block,block}, FileTracker::{take_first_unused,first,count}, Directory::{gc,has_files_that_can_be_deleted,first_file_number}, {Frame,Record}Writer::directory are VERIFIED against the ghost FS model of spec/vfs.rs (RollingReader::open over the read_exact stand-in R20, its body verified under the name open__verif_impl, DESIGN.md 13.10); '
-      'still trusted (contracts assumed): RollingReader::into_writer, Directory::{open,open_file,sync_directory}, read_block, create_file, FileTracker::{next,inc,new,from_file_numbers}, RollingWriter::size, FileNumber::can_be_deleted')
+      'RollingReader::{open,next_block,block}, read_block (only the error kind UnexpectedEof becomes "no more block"), FileTracker::{take_first_unused,first,count}, Directory::{gc,has_files_that_can_be_deleted,first_file_number}, {Frame,Record}Writer::directory are VERIFIED against the ghost FS model of spec/vfs.rs (RollingReader::open over the read_exact stand-in R20, its body verified under the name open__verif_impl, DESIGN.md 13.10); '
+      'still trusted (contracts assumed): RollingReader::into_writer, Directory::{open,open_file,sync_directory}, create_file, the read_exact stand-ins (R20), FileTracker::{next,inc,new,from_file_numbers}, RollingWriter::size, FileNumber::can_be_deleted')
 
 LEMMAS = {
     'C01': ['vspec::lemma_parse_ser_item', 'vspec::lemma_parse_ser_items', 'vspec::lemma_parse_ser_entry', 'vspec::lemma_replay_items_is_append_all', 'vspec::lemma_ser_items_empty', 'vspec::lemma_replay_history',
@@ -39,7 +39,7 @@ PROPS = {
                 'and at a file roll-over the file being left is proved fully flushed and fsynced before its handle is dropped (P-C03-rollover-ghost; wr_wf: every file left behind is durable); '
                 'the directory fsync is still called on both paths (O-C03-*-dir-sync, structural).',
         kani_quick=[], kani_thorough=[],
-        trusted=[FS, 'PersistState::update_persisted / From<PersistPolicy> (Instant arithmetic, assumed contracts)'],
+        trusted=[FS, 'PersistState::update_persisted / From<PersistPolicy> are VERIFIED (Instant::now() + d through the stand-in R21, which has no contract)'],
         not_decided=['that recovery from the synced/flushed image yields a state at least as recent (needs a crash model: C02)',
                      'what fsync of the directory achieves (no ghost effect modelled; only its presence is checked)',
                      'the state of the file after a FAILED write (the code keeps an advanced offset)'],
